@@ -38,10 +38,13 @@ def linearize(workdir, recs):
         import tempfile, shutil
         sub = tempfile.mkdtemp(prefix="lin-", dir=workdir)
         copy_specs("writers", sub)
+        flat = [ln for _, lines in ch for ln in lines]
+        if os.environ.get("VERIF_SELFTEST"):
+            import selftest
+            flat, _ = selftest.apply(os.environ["VERIF_SELFTEST"], "TriggerConcTrace", flat)
         with open(os.path.join(sub, "conc.ndjson"), "w") as f:
-            for _, lines in ch:
-                for ln in lines:
-                    f.write(ln + "\n")
+            for ln in flat:
+                f.write(ln + "\n")
         r = tlc(sub, "TriggerConcTrace", "SPECIFICATION TSpec\nCHECK_DEADLOCK FALSE\nINVARIANT Report\n", workers=1, timeout=900)
         if not r.completed:
             raise Inconclusive("TriggerConcTrace failed: %s" % r.out[-2000:])
